@@ -223,15 +223,32 @@ contract("buidl.helper.calculate_new_bits", props=P,
 
 # (b) the range in which difficulty lives: exponent >= 4 and a normalised mantissa (>= 0x008000, what GetCompact
 #     produces), so every intermediate target is >= 2**21 -- separates the retarget formula and its clamps from
-#     the small-target encoding defect of target_to_bits.  Symbolic.
-contract("buidl.helper.calculate_new_bits#normal", props=P,
-         ghost={"mantissa3": "bytes:3", "exponent": ("choice", list(range(4, 0x1e)))}, params={"time_differential": "int"},
-         setup=ValueOf("mantissa3 + bytes([exponent])", "previous_bits"), args=["previous_bits", "time_differential"],
-         requires=["0x008000 <= spec.int_le(mantissa3) < 0x800000",
-                   "spec.spv.compact_to_target(%s) <= spec.spv.POW_LIMIT_MAINNET" % _COMPACT],
-         ensures=["returns()",
-                  "result == spec.spv.retarget_bytes(previous_bits, time_differential, spec.spv.POW_LIMIT_MAINNET)"],
-         gen=_with_parts(_gen_retarget))
+#     the small-target encoding defect of target_to_bits.  Symbolic, one contract per exponent (about a
+#     minute of solver time each; five of them in the quick tier).
+def _gen_retarget_exp(e):
+    def gen(rng, tier):
+        spans = [0, 1, _TW // 4 - 1, _TW // 4, _TW // 4 + 1, _TW - 1, _TW, _TW + 1, 4 * _TW - 1, 4 * _TW, 4 * _TW + 1, 2**31 - 1, -1, -_TW]
+        hi = 0x10000 if e == 0x1d else 0x800000
+        for mnt in (0x008000, 0x008001, hi - 1, hi // 2, 0x00ffff, 0x00d86a):
+            if 0x008000 <= mnt < hi:
+                for sp in spans:
+                    yield {"mantissa3": mnt.to_bytes(3, "little"), "exponent": e, "time_differential": sp}
+        for _ in range(60):
+            yield {"mantissa3": rng.randrange(0x008000, hi).to_bytes(3, "little"), "exponent": e,
+                   "time_differential": rng.choice([rng.randrange(0, 6 * _TW), rng.randrange(_TW // 4 - 3, _TW // 4 + 3), rng.randrange(4 * _TW - 3, 4 * _TW + 3)])}
+    return gen
+
+
+for _e in range(4, 0x1e):
+    contract("buidl.helper.calculate_new_bits#e%d" % _e, props=P,
+             ghost={"mantissa3": "bytes:3", "exponent": ("const", _e)}, params={"time_differential": "int"},
+             setup=ValueOf("mantissa3 + bytes([exponent])", "previous_bits"), args=["previous_bits", "time_differential"],
+             requires=["0x008000 <= spec.int_le(mantissa3) < 0x800000",
+                       "spec.spv.compact_to_target(%s) <= spec.spv.POW_LIMIT_MAINNET" % _COMPACT],
+             ensures=["returns()",
+                      "result == spec.spv.retarget_bytes(previous_bits, time_differential, spec.spv.POW_LIMIT_MAINNET)"],
+             tiers=("quick", "thorough") if _e in (4, 0x17, 0x1b, 0x1c, 0x1d) else ("thorough",),
+             gen=_gen_retarget_exp(_e))
 
 
 # ---------------------------------------------------------------------------- Block.target / check_pow
@@ -342,7 +359,7 @@ for _n in (1, 2, 3):
     _hs = [_hdr(nm) for nm in _NAMES[:_n]]
     _list = "[" + ", ".join(_hs) + "]"
     contract("verif.harness.spv.headers_valid%d" % _n, props=P,
-             params={nm: _block([0x1d, 0x20]) for nm in _NAMES[:_n]},
+             params={nm: _block([0x1d, 0x20] if _n < 3 else [0x1d]) for nm in _NAMES[:_n]},
              ensures=["returns()",
                       "implies(result, spec.spv.chain_linked(%s))" % _list,                               # linkage (sound)
                       "implies(result, spec.spv.chain_valid(%s, spec.spv.POW_LIMIT_REGTEST))" % _list,     # PoW (sound)
